@@ -20,6 +20,13 @@ CHECKS = {
             "counts, arguments seen (values equal, references resolving to the original), per-node results and final state of every by-reference "
             "object must agree.",
             "DESIGN.md C01", "No BgServingThread configuration (D7 would surface as spurious timeouts inside nested calls)."),
+    "C03": ("exploration",
+            "deterministic simulation: seeded send/echo/re-receive/mutate/bounce/copy histories between two live peers; oracle = independent by-value/by-reference classifier + identity checks on both peers' real objects",
+            "Seeded search over histories (send as argument, receive as result, echo, re-receive with the proxy alive or dropped, two asynchronous "
+            "sends of one object in a row - which nests a receipt inside the class inspection of another -, mutate through the reference, 2-4 hop "
+            "bounce, obtain / deliver) over pools of every immutable shape, subclass instances of value types, containers, functions, classes, "
+            "modules; link schedules varied. The harness sees the owner's real object behind every proxy.",
+            "DESIGN.md C03", "Known finding D2 (lone-surrogate text cannot travel by value) recorded in known_findings.json."),
     "C05": ("fault_enumeration",
             "deterministic simulation: seeded fragmentation/fault schedules over real Channel+Stream; fatal cut swept over every byte offset (thorough)",
             "Seeded search over packet sequences x fragmentation patterns x transient read errors, with the fatal-fault dimension enumerated: "
